@@ -67,8 +67,25 @@ def build(jobs=16):
         t0 = time.time()
         info = {'translator': None, 'make': None, 'stale': [], 'runner_ok': True}
         rc, out = sh(f'/venv/bin/python {VERIF}/tools/py2v.py', 120, cwd=VERIF)
+        info['runner_from_last_good_tables'] = False
         if rc != 0:
             info['translator'] = out[-3000:]
+            tables, last = os.path.join(COQ, 'Gen', 'Tables.v'), os.path.join(COQ, 'Gen', 'Tables.lastgood')
+            if 'gen_tables' in out and os.path.exists(last) and os.path.exists(os.path.join(COQ, 'Makefile')):
+                # Gen/Tables.v is the one generated file the executable model depends on.  Build the runner against the LAST tables that
+                # translated (the model of the code as it was), then put the poisoned file back: every proof over the tables counts as
+                # broken, while the correspondence and the search still run — against the previous tables, so a change of behaviour
+                # shows up as a concrete disagreement and an equivalent rewrite as none.
+                poisoned = open(tables, encoding='utf-8').read()
+                try:
+                    open(tables, 'w', encoding='utf-8').write(open(last, encoding='utf-8').read())
+                    rc2, _ = sh(f'timeout 1500 make -j{jobs} Extract/Extract.vo 2>&1', 1600, cwd=COQ)
+                    ex = os.path.join(COQ, 'Extract')
+                    if rc2 == 0:
+                        rc3, _ = sh('ocamlfind ocamlopt -O3 -w -a model.mli model.ml driver.ml -o runner 2>&1', 300, cwd=ex)
+                        info['runner_from_last_good_tables'] = rc3 == 0
+                finally:
+                    open(tables, 'w', encoding='utf-8').write(poisoned)
         if not os.path.exists(os.path.join(COQ, 'Makefile')) or \
                 os.path.getmtime(os.path.join(COQ, '_CoqProject')) > os.path.getmtime(os.path.join(COQ, 'Makefile')):
             rc, out = sh('coq_makefile -f _CoqProject -o Makefile', 60, cwd=COQ)
@@ -90,7 +107,9 @@ def build(jobs=16):
         ex = os.path.join(COQ, 'Extract')
         runner = os.path.join(ex, 'runner')
         srcs = [os.path.join(ex, f) for f in ('model.ml', 'model.mli', 'driver.ml')]
-        if 'Extract/Extract.v' in info['stale'] or not all(os.path.exists(s) for s in srcs):
+        if info['runner_from_last_good_tables'] and os.path.exists(runner):
+            pass                              # built above against the last tables that translated
+        elif 'Extract/Extract.v' in info['stale'] or not all(os.path.exists(s) for s in srcs):
             info['runner_ok'] = False        # the model itself does not build: no correspondence possible
             try:
                 os.remove(runner)
@@ -440,7 +459,7 @@ def standard_prologue(ctx):
     usable = True
     try:
         info = build()
-        ctx.extra['build'] = {k: info[k] for k in ('build_s', 'stale', 'runner_ok')}
+        ctx.extra['build'] = {k: info[k] for k in ('build_s', 'stale', 'runner_ok', 'runner_from_last_good_tables')}
         if info['translator']:
             ctx.extra['build']['translator'] = info['translator'][-600:]
     except BuildError as e:
